@@ -58,6 +58,8 @@ def mutate(data, lay, fault):
         return np.zeros((3, 2)) if not isinstance(data, list) else [np.zeros((3, 2))] * len(data)
     if fault == "missingFeatureDim":
         return _map_items(data, lambda v: v.isel({f1: 0}, drop=True) if f1 in v.dims else v)
+    if fault == "missingFeatureDimOneVar":
+        return data.assign(a=data["a"].isel({f1: 0}, drop=True))
     if fault == "missingSampleDim":
         return _map_items(data, lambda v: v.isel({s1: 0}, drop=True) if s1 in v.dims else v)
     if fault == "extraDim":
@@ -194,6 +196,11 @@ def eval_param(i, scn):
         if fault == "inverseUnknownMode":
             bad = (lambda s: s.assign_coords(mode=s.mode + 10))
             return m.inverse_transform(*[bad(s) for s in sc]) if cross else m.inverse_transform(bad(sc))
+        if fault == "inverseUnknownModeNormalized":
+            return m.inverse_transform(sc.assign_coords(mode=sc.mode + 10), normalized=True)
+        if fault == "inversePartlyUnknownModes":
+            s3 = sc.isel(mode=[0, 1]).assign_coords(mode=[1, 7])
+            return m.inverse_transform(s3, normalized=(i % 2 == 0))
         if fault == "inverseExtraDim":
             ex = (lambda s: s.expand_dims(ens=[0, 1]))
             return m.inverse_transform(*[ex(s) for s in sc]) if cross else m.inverse_transform(ex(sc))
